@@ -10,7 +10,8 @@ from pyvc.values import VAny, VBool, VOpt, VRef, VNone
 from pyvc.state import Unsupported
 from . import c08  # noqa  (AvpGenDef model, getattr_dyn for messages)
 
-R.model("AvpGenerator", builtin=True, fields={}, dynamic={"additional_avps": "List[Avp]", "_additional_avps": "List[Avp]"})
+R.model("AvpGenerator", builtin=True, fields={}, dynamic={"additional_avps": "List[Avp]", "_additional_avps": "List[Avp]"},
+        open_attrs=True)
 R.model("AvpGenDef", fields={"type_class": "Opt[Any:contclass]"})
 R.region("assign_attr_from_defs", "AnnAssign", 0, assigns={"needed": "Dict[str,AvpGenDef]"},
          note="needed = {f'{a.avp_code}-{a.vendor_id}': a for a in obj.avp_def}: abstracted to an arbitrary table of rows "
